@@ -310,6 +310,9 @@ def apply_contract(X, st, C, env, node):
     if C.result:
         base, arg, opt = parse_type(C.result)
         res = wrap(fresh("res", sort_of(C.result)), C.result, fresh("res?", B) if opt else None)
+    if isinstance(res, (Ref, ListV)) and not C.pure:
+        a_ = post.heap["@alloc"][res.v]
+        post.pc.append(z3.Implies(z3.Not(res.none), a_) if res.none is not None else a_)     # a returned object is allocated
     cenv = dict(env)
     cenv["result"] = res
     cst = State(cenv, post.heap, post.pc, {"old_heap": dict(st.heap), "old_env": dict(env)})
